@@ -527,5 +527,9 @@ def check(repo, rep, tier):
   rep.obs[before:] = [o for o in rep.obs[before:]
                       if o['construct'].startswith('SDML')]
   rule_problem(repo, rep)
+  # the loss matrix is D^T Diag(y) D also for a single pair: no axis-less
+  # squeeze of the pair differences
+  from . import c03 as _c03
+  _c03.rule_no_axisless_squeeze(repo, rep, modules=('sdml',))
   rule_forms(repo, rep)
   rule_vetting(repo, rep)
